@@ -26,5 +26,6 @@ fs = json.load(open("/verif/known_findings.json"))
 fs = [f for f in fs if f["id"] != fid]
 e = {"property": prop, "id": fid, "status": status, "signature": sig, "witness": f"findings/{fid}/case.json", "what": what, "root_cause": root}
 if commit != "-": e["commit"] = commit
+e["record"] = (f"fixed: property={prop} {commit} {what}" if status == "fixed" else f"KNOWN-FINDING: property={prop} {what}")
 fs.append(e)
 json.dump(fs, open("/verif/known_findings.json", "w"), indent=1, ensure_ascii=False)
